@@ -41,6 +41,11 @@ THEOREMS = {"Artap.Props.C10": [
     "C10_from_to_dict", "C10_replace_id_spec", "C10_upsert_one_row_last_wins", "C10_row_count",
     "C10_view_returns_last_sync", "C10_run_store_complete", "C10_problem_meta_roundtrip", "C10_reload_resync", "C10_jv_eqb_eq"]}
 AXIOMS_OK = []          # closed under the global context
+# second tie to the code (tools/py2coq.py + front-end tools/py2coq_eff.py + coq/theories/GenProofs): on every run the source of
+# SqliteDataStore.sync_individual / sync_all is translated (execute / commit / the retry on sqlite3.OperationalError as effects
+# with outcomes, in order) and proved to have the control structure of the models (one upsert per individual in order, one commit)
+from harness.core import translated_specs
+TRANSLATED = translated_specs("StoreGen")
 TRUSTED = [
     "Coq 8.16.1 kernel, vm_compute for model evaluation (no native_compute)",
     "hand-written model Model/Store.v tied to datastore.py / individual.py / problem.py by this correspondence run",
